@@ -825,6 +825,80 @@ Proof.
   intros a Ha. destruct (Hall a Ha) as [_ [A2 A3]]. split; [exact (P a Ha)|]. split; assumption.
 Qed.
 
+(** ** a replica that fails the snapshot call is marked ERR -- when the snapshot is fanned out at all.
+    With the gate open (all RF replicas RW) [do_snapshot] still refuses before calling any replica when the
+    name lookup on the last RW replica fails (KHttp) or the name is already in that replica's chain *)
+Definition snap_reaches (s : cst) (e : event) : Prop :=
+  match e with
+  | Snapshot n fs =>
+      count_rw (replicas s) = rf s ->
+      forall r0, last_rw s = Some r0 ->
+        flt fs r0 KHttp = false /\ existsb (Nat.eqb n) (f_chain (wget (w s) r0)) = false
+  | _ => True
+  end.
+
+Lemma last_rw_some : forall s, (0 < count_rw (replicas s))%nat -> exists r0, last_rw s = Some r0.
+Proof.
+  intros s H. unfold last_rw, count_rw in *.
+  destruct (filter (fun p => is_rw (snd p)) (replicas s)) as [|p l]; [cbn in H; inversion H|].
+  cbn [rev]. destruct (rev l ++ [p]) as [|q t] eqn:E; [apply app_eq_nil in E; destruct E; discriminate|].
+  exists (fst q). reflexivity.
+Qed.
+
+Lemma snapshot_failed_not_in_service : forall s n fs r0 a,
+  struct_ok s -> status_ok s -> count_rw (replicas s) = rf s -> length (replicas s) = rf s ->
+  last_rw s = Some r0 -> flt fs r0 KHttp = false -> existsb (Nat.eqb n) (f_chain (wget (w s) r0)) = false ->
+  In a (keys (replicas s)) -> flt fs a KSnap = true ->
+  ~ In a (in_service (replicas (fst (do_snapshot s n fs)))).
+Proof.
+  intros s n fs r0 a Hst [Hc _] Hcnt Hlen Hl Hh He Ha Hf.
+  assert (Hrw : forall x m, In (x, m) (replicas s) -> m = RW) by (apply count_rw_full; congruence).
+  pose proof (st_rf s Hst) as Hrf.
+  unfold do_snapshot. rewrite Hc, Hcnt, Nat.eqb_refl. cbn [negb].
+  assert (Hb : Nat.eqb (length (backends s)) 0 = false).
+  { apply Nat.eqb_neq. intro E. pose proof (f_equal (@length _) (st_mirror s Hst)) as L.
+    unfold proj in L. rewrite map_length, E, Hlen in L. rewrite <- L in Hrf. inversion Hrf. }
+  rewrite Hb.
+  assert (Hr : remain_ok s = true).
+  { unfold remain_ok. apply negb_true_iff. destruct (existsb _ (backends s)) eqn:Ex; [|reflexivity].
+    apply existsb_exists in Ex. destruct Ex as [p [Hp Hm]].
+    assert (Hin : In (fst p, fst (snd p)) (replicas s)).
+    { rewrite <- (st_mirror s Hst). unfold proj. apply in_map_iff. exists p. split; [reflexivity|exact Hp]. }
+    apply Hrw in Hin. rewrite Hin in Hm. discriminate. }
+  rewrite Hr, Hl, Hh, He. cbn [negb].
+  assert (Haw : In a (writers s)).
+  { rewrite (writers_in_service_st s Hst). apply in_service_rw.
+    apply keys_in in Ha. destruct Ha as [m Hm]. rewrite (Hrw a m Hm) in Hm. exact Hm. }
+  pose proof (sst_snapshot_all s fs n) as Hs. unfold snapshot_all in *. cbn [fst] in Hs.
+  set (s1 := fold_left _ (writers s) s) in *.
+  assert (H1 : struct_ok s1) by (eapply sst_struct; [exact Hs|exact Hst]).
+  assert (Hie : In a (filter (fun x => flt fs x KSnap) (writers s))) by (apply filter_In; split; assumption).
+  destruct (filter (fun x => flt fs x KSnap) (writers s)) as [|e es]; [contradiction|].
+  pose proof (handle_error_errs_not_rw (e :: es) s1 a H1 Hie) as Hn.
+  pose proof (in_replicas_handle_error (e :: es) s1) as Hback.
+  destruct (handle_error_nolock s1 (e :: es)) as [s2 sup]. cbn [fst] in *.
+  intro Hin. apply in_service_in in Hin. destruct Hin as [m [Hm Hne]].
+  pose proof (Hback (a, m) Hm Hne) as Hold. destruct Hs as [R _]. rewrite R in Hold.
+  rewrite (Hrw a m Hold) in Hm. exact (Hn Hm).
+Qed.
+
+(** the oracle's guard [snap_called] (Ctl/Oracles.v) implies that the model fans the request out *)
+Lemma snap_called_reaches : forall n s e r0 ef0 r0', keys_lt n s ->
+  snap_called (with_res1 (observe n s r0 ef0) r0') e = true -> snap_reaches s e.
+Proof.
+  intros n s e r0 ef0 r0' Hk Hg. destruct e; try exact I. cbn [snap_reaches]. intros _ rl Hl.
+  unfold snap_called in Hg. cbn [o_replicas with_res1 observe] in Hg. unfold rw_of in Hg. rewrite <- map_rev in Hg.
+  unfold last_rw in Hl.
+  destruct (rev (filter (fun p => is_rw (snd p)) (replicas s))) as [|p l] eqn:Er; [discriminate|].
+  inversion Hl; subst rl. cbn [map] in Hg. apply andb_prop in Hg. destruct Hg as [G1 G2].
+  apply negb_true_iff in G1. apply negb_true_iff in G2. split; [exact G1|].
+  assert (Hlt : (fst p < n)%nat).
+  { apply Hk. assert (Hin : In p (rev (filter (fun q => is_rw (snd q)) (replicas s)))) by (rewrite Er; left; reflexivity).
+    apply in_rev in Hin. apply filter_In in Hin. destruct Hin as [Hin _]. destruct p as [k v]. eapply CheckpointInv.in_keys. exact Hin. }
+  unfold chain_of, rep_of in G2. cbn [o_reps with_res1 observe] in G2.
+  rewrite nth_error_map_seq in G2 by exact Hlt. exact G2.
+Qed.
+
 Lemma c13_step_model : forall rf0 n q s e r0 ef0 r0',
   ck_inv s -> status_ok s -> rf s = rf0 -> keys_lt n s -> ev_wf e = true -> ev_addrs_lt n e = true ->
   (q = true -> pend_mon (fst (fst (step s e))) = []) ->
@@ -845,6 +919,17 @@ Proof.
     rewrite Es. cbn [fst snd o_replicas with_res1 observe].
     destruct (Nat.eqb (count_rw (replicas s)) rf0 && Nat.eqb (length (replicas s)) rf0) eqn:Ec.
     + apply andb_prop in Ec. destruct Ec as [Ec1 Ec2]. apply Nat.eqb_eq in Ec1. apply Nat.eqb_eq in Ec2.
+      apply andb_true_intro. split.
+      2:{ (* whoever fails the call is not in service afterwards, when the request is fanned out *)
+        destruct (snap_called (with_res1 (observe n s r0 ef0) r0') (Snapshot name fs)) eqn:Eg; [|reflexivity].
+        pose proof (snap_called_reaches n s (Snapshot name fs) r0 ef0 r0' Hlt Eg) as Hsr. cbn [snap_reaches] in Hsr.
+        apply forallb_forall. intros a Ha. destruct (flt fs a KSnap) eqn:Ef; [|reflexivity].
+        apply negb_true_iff. apply mem_false.
+        assert (Hcr : count_rw (replicas s) = rf s) by congruence.
+        destruct (last_rw_some s) as [rl Hl].
+        { rewrite Hcr. exact (st_rf s Hst). }
+        destruct (Hsr Hcr rl Hl) as [Hh He].
+        apply (snapshot_failed_not_in_service s name fs rl a Hst Hss Hcr (eq_trans Ec2 (eq_sym Hrf)) Hl Hh He Ha Ef). }
       unfold is_ack. cbn [o_res observe].
       destruct (res_eqb (res_class (snd (do_snapshot s name fs))) ROk) eqn:Ea; [|reflexivity].
       assert (Hok : snd (do_snapshot s name fs) = ROk) by (destruct (snd (do_snapshot s name fs)); try discriminate; reflexivity).
@@ -946,3 +1031,24 @@ Example c13_oracle_presupposes_sound_flags :
   /\ walk_q (fun q => lift (c13_step 1 q) (c13_pair 1)) 0 (obs0 1 1 ex_world) (map One (ex_boot ++ [SetMode 0%nat ERR]))
          (trace 1 (init 1 ex_world) (map One (ex_boot ++ [SetMode 0%nat ERR]))) [true; true; false] = None.
 Proof. vm_compute. split; reflexivity. Qed.
+
+(** ** with the gate open the model (as the code) refuses a snapshot before calling any replica when the
+    name lookup on the last RW replica fails or the name already exists; a replica whose script says KSnap
+    then stays in service.  The clause "a replica that failed the snapshot does not stay in service" of
+    [c13_step] is guarded by [snap_called] for this reason: the oracle accepts these traces (without the
+    guard it rejected both at step 2) *)
+Example c13_accepts_refused_existing_name :
+  let es := ex_boot ++ [Snapshot 5%nat [(0%nat, KSnap)]] in
+  walk_q (fun q => lift (c13_step 1 q) (c13_pair 1)) 0 (obs0 1 1 ex_world) (map One es)
+         (trace 1 (init 1 ex_world) (map One es)) [true; true; true] = None
+  /\ map o_res (trace 1 (init 1 ex_world) (map One es)) = [ROk; ROk; RErr]
+  /\ map o_replicas (trace 1 (init 1 ex_world) (map One es)) = [[]; [(0%nat, RW)]; [(0%nat, RW)]].
+Proof. vm_compute. repeat split. Qed.
+
+Example c13_accepts_refused_failed_lookup :
+  let es := ex_boot ++ [Snapshot 7%nat [(0%nat, KHttp); (0%nat, KSnap)]] in
+  walk_q (fun q => lift (c13_step 1 q) (c13_pair 1)) 0 (obs0 1 1 ex_world) (map One es)
+         (trace 1 (init 1 ex_world) (map One es)) [true; true; true] = None
+  /\ map o_res (trace 1 (init 1 ex_world) (map One es)) = [ROk; ROk; RErr]
+  /\ map o_replicas (trace 1 (init 1 ex_world) (map One es)) = [[]; [(0%nat, RW)]; [(0%nat, RW)]].
+Proof. vm_compute. repeat split. Qed.
